@@ -66,6 +66,7 @@ def _spec_and_real(out, pid, tier, seed, cfgs, variants, name):
         "transitions": stats["generated"] + (res.generated if res else 0),
         "traces_validated_against_impl": len(records) - len([r for r in rejected if r[0] != -1]),
         "configurations": len(cfgs), "real_executions": n_real,
+        "tlc_action_coverage": stats.get("action_coverage", {}),
         "layouts": sorted({c["layout"] for c in cfgs}),
         "modes": sorted({E._mode(c) for c in cfgs}),
     })
